@@ -22,6 +22,8 @@ func init() {
 			"NOT decided: off-by-one inside the window computation, the prompt/ANSI regular expressions, fuzzy-match semantics beyond byte consumption (fuzzy-consume), alignment under arbitrary segmentations.",
 		Assumptions: []string{"bytes.ReplaceAll/Trim*/regexp.ReplaceAll behave as documented", "Queue is a lossless FIFO (C20)"},
 		Mutants: []Mutant{
+			{ID: "C01-skip-blank-chunk", Desc: "ReadUntilPrompt does not look for the prompt after a chunk of blanks", Rule: "C01/match-every-chunk",
+				Edits: []Edit{{File: "channel/read.go", Old: "\t\trb = append(rb, nb...)\n\n\t\tif c.PromptPattern.Match(processReadBuf(rb, c.PromptSearchDepth)) {", New: "\t\trb = append(rb, nb...)\n\n\t\tif len(bytes.TrimSpace(nb)) == 0 {\n\t\t\tcontinue\n\t\t}\n\n\t\tif c.PromptPattern.Match(processReadBuf(rb, c.PromptSearchDepth)) {"}}},
 			{ID: "C01-write-and-return-skips-empty", Desc: "WriteAndReturn returns early for an empty input", Rule: "C01/write-primitives",
 				Edits: []Edit{{File: "channel/write.go", Old: "func (c *Channel) WriteAndReturn(b []byte, r bool) error {\n", New: "func (c *Channel) WriteAndReturn(b []byte, r bool) error {\n\tif len(b) == 0 {\n\t\treturn nil\n\t}\n\n"}}},
 			{ID: "C01-last-command-without-options", Desc: "the last command of SendCommands is sent without the per-operation options", Rule: "C01/opts-forwarded",
@@ -93,6 +95,8 @@ func runC01(c *Ctx, r *Report) {
 	r.Rule("C01/write-primitives", "Channel.Write forwards the caller's bytes unchanged; WriteReturn writes the return character; WriteAndReturn is Write then, on success, one WriteReturn", 3)
 	r.Rule("C01/one-response-per-command", "SendCommands sends the slice's elements in order, the last one last", 2)
 
+	r.Rule("C01/match-every-chunk", "each read-until loop hands its accumulation to the matcher after every chunk it appended, before it reads again", 4)
+	checkMatchEveryChunk(c, r, "C01/match-every-chunk")
 	checkSendInputWorker(c, r)
 	checkSendCommandOnce(c, r)
 	checkReadLoopEnqueue(c, r)
